@@ -89,6 +89,7 @@ func (s *subPub) process() {
 			for j := 0; j < len(cSlice); j++ {
 				if cSlice[j].notifier == info.notifier {
 					cSlice = append(cSlice[:j], cSlice[j+1:]...)
+					j--
 				}
 			}
 			if len(cSlice) == 0 {
